@@ -448,7 +448,7 @@ Lemma fold_run_domain_fst md rows wv ri doms : forall q rd,
 Proof.
   induction doms as [|[d rst] doms IH]; intros q rd; cbn [fold_left L_model flat_map].
   - reflexivity.
-  - cbn [run_domain]. rewrite IH. cbn [fst]. fold (L_model wv doms). rewrite queue_writes_app. reflexivity.
+  - cbn [run_domain fst]. rewrite IH. cbn [fst]. fold (L_model wv doms). rewrite queue_writes_app. reflexivity.
 Qed.
 
 Lemma dom_active_in doms d : dom_active doms d = true -> In d (map fst doms).
@@ -693,7 +693,7 @@ Qed.
 Definition port_step (md : memd) (rows : list Z) (wv : list (Z * action)) (p : rport) (r : rin)
                      (cur : Z) (dr : Z * bool) : Z :=
   match rp_dom p with
-  | Some d' => if d' =? fst dr then sync_read md rows wv (snd dr) p r cur else cur
+  | Some d' => if d' =? fst dr then sync_read md rows wv p r cur else cur
   | None => cur
   end.
 
@@ -702,7 +702,7 @@ Lemma fold_run_domain_snd md rows wv ri doms j p : nth_error (md_rports md) j = 
   fold_left (port_step md rows wv p (ri j)) doms (nth j rd 0).
 Proof.
   intros Hj. induction doms as [|[d rst] doms IH]; intros q rd; cbn [fold_left]; auto.
-  cbn [run_domain]. rewrite IH. f_equal.
+  cbn [run_domain fst]. rewrite IH. f_equal.
   rewrite (nth_mapi _ _ _ p) by auto. unfold port_step. cbn [fst snd]. reflexivity.
 Qed.
 
@@ -718,7 +718,7 @@ Lemma port_fold_spec md rows wv p r doms : NoDup (map fst doms) -> forall cur,
   fold_left (port_step md rows wv p r) doms cur =
   match rp_dom p with
   | None => cur
-  | Some d => if dom_active doms d then sync_read md rows wv (dom_rst doms d) p r cur else cur
+  | Some d => if dom_active doms d then sync_read md rows wv p r cur else cur
   end.
 Proof.
   destruct (rp_dom p) as [d|] eqn:Hp.
@@ -726,18 +726,14 @@ Proof.
       unfold port_step at 2. rewrite Hp. apply IH. }
   induction doms as [|[d0 r0] doms IH]; intros Hnd cur; cbn [fold_left]; auto.
   cbn [map fst] in Hnd. inversion Hnd as [|? ? Hnotin Hnd']; subst.
-  cbn [dom_active dom_rst existsb fst snd]. fold (dom_active doms d). fold (dom_rst doms d).
+  cbn [dom_active existsb fst snd]. fold (dom_active doms d).
   unfold port_step at 2. rewrite Hp. cbn [fst snd].
   destruct (d =? d0) eqn:E.
-  - assert (d = d0) by lia; subst d0. rewrite Z.eqb_refl. cbn [orb andb].
+  - assert (d = d0) by lia; subst d0. rewrite Z.eqb_refl. cbn [orb].
     assert (dom_active doms d = false) as Hna.
     { destruct (dom_active doms d) eqn:Ea; auto. exfalso. apply Hnotin. apply dom_active_in; auto. }
-    rewrite (port_fold_inactive md rows wv p r doms d) by auto.
-    assert (dom_rst doms d = false) as Hnr.
-    { unfold dom_rst. destruct (existsb _ doms) eqn:Ee; auto. exfalso. apply Hnotin.
-      apply existsb_exists in Ee. destruct Ee as (dr & Hin & He). apply in_map_iff. exists dr. split; auto. lia. }
-    rewrite Hnr, orb_false_r. reflexivity.
-  - replace (d0 =? d) with false by lia. cbn [orb andb]. apply IH; auto.
+    rewrite (port_fold_inactive md rows wv p r doms d) by auto. reflexivity.
+  - replace (d0 =? d) with false by lia. cbn [orb]. apply IH; auto.
 Qed.
 
 (* ================================================================== one event: the simulated memory = the array *)
@@ -805,14 +801,13 @@ Proof.
   rewrite Forall_forall in HF. apply HF. eapply nth_error_In; eauto.
 Qed.
 
-Lemma sync_read_spec_eq md st doms wi ri p j :
+Lemma sync_read_spec_eq md st wi ri p j :
   wf_md md = true -> wf_state md st ->
-  sync_read md (st_rows st) (all_wvals md wi) (dom_rst doms (match rp_dom p with Some d => d | None => 0 end)) p (ri j)
-            (nth j (st_rdata st) 0) =
+  sync_read md (st_rows st) (all_wvals md wi) p (ri j) (nth j (st_rdata st) 0) =
   if Z.odd (ri_en (ri j))
   then spec_apply (md_shape md) (spec_transp (all_sacts md wi) (rp_transp p)) (mask (md_abits md) (ri_addr (ri j)))
                   (spec_read md (st_rows st) (mask (md_abits md) (ri_addr (ri j))))
-  else if dom_rst doms (match rp_dom p with Some d => d | None => 0 end) then rp_init p else nth j (st_rdata st) 0.
+  else nth j (st_rdata st) 0.
 Proof.
   intros Hmd (Hl & HF & _). destruct (wf_md_parts md Hmd) as (Hs & Hd & _).
   pose proof (wf_shape_width _ Hs) as Hw.
@@ -843,7 +838,7 @@ Proof.
     + rewrite Hrd. rewrite (fold_run_domain_snd md _ _ ri doms j p Hj).
       rewrite port_fold_spec by (apply nodupb_NoDup; auto). rewrite Hp.
       destruct (dom_active doms d); auto.
-      pose proof (sync_read_spec_eq md st doms wi ri p j Hmd Hst) as Hsr. rewrite Hp in Hsr. exact Hsr.
+      exact (sync_read_spec_eq md st wi ri p j Hmd Hst).
     + change (ms_read (md_depth md)) with (spec_read md). apply norm_id; auto.
       apply spec_read_in_range; auto.
       apply (spec_rows_wf md (fun a old => spec_apply (md_shape md) (spec_writes (all_sacts md wi) doms) a old)); auto.
@@ -1001,7 +996,7 @@ Section Clauses.
         if dom_active doms d then
           if Z.odd (ri_en (ri j))
           then spec_apply s (spec_transp (all_sacts md wi) (rp_transp p)) a (spec_read md (st_rows st) a)
-          else if dom_rst doms d then rp_init p else nth j (st_rdata st) 0
+          else nth j (st_rdata st) 0
         else nth j (st_rdata st) 0
     end.
   Proof.
@@ -1047,13 +1042,13 @@ Section Clauses.
 
   Lemma read_hold doms wi ri j p d : ev_ok md (EStep doms wi ri) = true ->
     nth_error (md_rports md) j = Some p -> rp_dom p = Some d ->
-    dom_active doms d = false \/ (Z.odd (ri_en (ri j)) = false /\ dom_rst doms d = false) ->
+    dom_active doms d = false \/ Z.odd (ri_en (ri j)) = false ->
     nth j (st_rdata (mem_step md st (EStep doms wi ri))) 0 = nth j (st_rdata st) 0.
   Proof.
     intros Hev Hj Hp H. rewrite (rdata_after_step doms wi ri j p) by auto. cbv zeta. rewrite Hp.
-    destruct H as [Ha | [He Hr]].
+    destruct H as [Ha | He].
     - rewrite Ha. reflexivity.
-    - rewrite He, Hr. destruct (dom_active doms d); reflexivity.
+    - rewrite He. destruct (dom_active doms d); reflexivity.
   Qed.
 
   Lemma read_hold_tb i v j p d : nth_error (md_rports md) j = Some p -> rp_dom p = Some d ->
@@ -1091,19 +1086,19 @@ Qed.
 
 (* the order in which the simulator runs the processes of simultaneous edges is immaterial *)
 Lemma spec_step_doms_ext md st doms doms' wi ri :
-  (forall d, dom_active doms d = dom_active doms' d) -> (forall d, dom_rst doms d = dom_rst doms' d) ->
+  (forall d, dom_active doms d = dom_active doms' d) ->
   spec_step md st (EStep doms wi ri) = spec_step md st (EStep doms' wi ri).
 Proof.
-  intros Ha Hr. cbn [spec_step].
+  intros Ha. cbn [spec_step].
   assert (Hw : spec_writes (all_sacts md wi) doms = spec_writes (all_sacts md wi) doms').
   { unfold spec_writes. f_equal. apply filter_ext. intros t. apply Ha. }
   rewrite Hw. f_equal. apply mapi_ext. intros j p Hj. destruct (rp_dom p); auto.
-  rewrite Ha, Hr. reflexivity.
+  rewrite Ha. reflexivity.
 Qed.
 
 Lemma edge_order_irrelevant md st doms doms' wi ri : wf_md md = true -> wf_state md st ->
   ev_ok md (EStep doms wi ri) = true -> ev_ok md (EStep doms' wi ri) = true ->
-  (forall d, dom_active doms d = dom_active doms' d) -> (forall d, dom_rst doms d = dom_rst doms' d) ->
+  (forall d, dom_active doms d = dom_active doms' d) ->
   mem_step md st (EStep doms wi ri) = mem_step md st (EStep doms' wi ri).
 Proof. intros. rewrite !step_refines by auto. apply spec_step_doms_ext; auto. Qed.
 
